@@ -215,4 +215,186 @@ theorem pton6_full (ws : List Nat) (hws : ∀ w ∈ ws, w < 65536) (hlen : ws.le
 
 def validRuns : List (Nat × Nat) := [(0, 2), (0, 3), (0, 4), (0, 5), (0, 6), (0, 7), (0, 8), (1, 2), (1, 3), (1, 4), (1, 5), (1, 6), (1, 7), (2, 2), (2, 3), (2, 4), (2, 5), (2, 6), (3, 2), (3, 3), (3, 4), (3, 5), (4, 2), (4, 3), (4, 4), (5, 2), (5, 3), (6, 2)]
 
+/-! ### the chosen run -/
+
+/-- the run `inet_ntop6` compresses has at least two groups, lies within the eight, and every group in it is zero -/
+def runOk (zs : List Bool) : Bool :=
+  match bestRun zs with
+  | none => true
+  | some (b, l) => decide ((b, l) ∈ validRuns) &&
+      (List.range 8).all (fun i => !(decide (b ≤ i) && decide (i < b + l)) || zs.getD i false)
+
+/-- … whatever the eight zero flags -/
+theorem bestRun_spec : ∀ z0 z1 z2 z3 z4 z5 z6 z7 : Bool, runOk [z0, z1, z2, z3, z4, z5, z6, z7] = true := by
+  decide
+
+theorem len8 {α : Type} (l : List α) (h : l.length = 8) : ∃ a b c d e f g i, l = [a, b, c, d, e, f, g, i] := by
+  match l, h with
+  | [a, b, c, d, e, f, g, i], _ => exact ⟨a, b, c, d, e, f, g, i, rfl⟩
+
+/-! ### the shapes `inet_ntop6` prints -/
+
+theorem ntop6With_none (ws : List Nat) (hlen : ws.length = 8) (t4 : List UInt8) : ntop6With ws none t4 = sepGroups ws := by
+  obtain ⟨a, b, c, d, e, f, g, i, rfl⟩ := len8 ws hlen
+  simp [ntop6With, render6, inBest, v4Tail, trailingColon, sepGroups]
+
+theorem ntop6With_tail6 (ws : List Nat) (hlen : ws.length = 8) (t4 : List UInt8) :
+    ntop6With ws (some (0, 6)) t4 = 58 :: 58 :: t4 := by
+  obtain ⟨a, b, c, d, e, f, g, i, rfl⟩ := len8 ws hlen
+  simp [ntop6With, render6, inBest, isBase, v4Tail, trailingColon]
+
+theorem ntop6With_tail5 (ws : List Nat) (hlen : ws.length = 8) (t4 : List UInt8) (h5 : ws.getD 5 0 = 0xffff) :
+    ntop6With ws (some (0, 5)) t4 = 58 :: 58 :: (hexG 0xffff ++ 58 :: t4) := by
+  obtain ⟨a, b, c, d, e, f, g, i, rfl⟩ := len8 ws hlen
+  simp at h5
+  subst h5
+  simp [ntop6With, render6, inBest, isBase, v4Tail, trailingColon]
+
+theorem ntop6With_compress (ws : List Nat) (hlen : ws.length = 8) (b l : Nat) (h : (b, l) ∈ validRuns)
+    (ht : v4Tail (some (b, l)) (ws.getD 5 0) = false) (t4 : List UInt8) :
+    ntop6With ws (some (b, l)) t4 =
+      (if ws.take b = [] then [58] else []) ++ (ws.take b).flatMap grpColon ++ 58 :: sepGroups (ws.drop (b + l)) := by
+  obtain ⟨w0, w1, w2, w3, w4, w5, w6, w7, rfl⟩ := len8 ws hlen
+  simp only [validRuns, List.mem_cons, Prod.mk.injEq, List.mem_nil_iff, or_false] at h
+  rcases h with h | h | h | h | h | h | h | h | h | h | h | h | h | h | h | h | h | h | h | h | h | h | h | h | h | h | h | h <;>
+    (obtain ⟨rfl, rfl⟩ := h
+     simp only [List.getD_eq_getElem?_getD, List.getElem?_cons_succ, List.getElem?_cons_zero, Option.getD_some] at ht
+     simp [ntop6With, ht, render6, inBest, isBase, trailingColon, sepGroups, grpColon])
+
+/-! ### the dotted tail -/
+
+theorem decByte_eq (b : UInt8) : decByte b =
+    if b.toNat ≥ 100 then [hexDigit (b.toNat / 100), hexDigit (b.toNat / 10 % 10), hexDigit (b.toNat % 10)]
+    else if b.toNat ≥ 10 then [hexDigit (b.toNat / 10), hexDigit (b.toNat % 10)]
+    else [hexDigit b.toNat] := by
+  have hb := u8_lt b
+  unfold decByte
+  simp only []
+  split
+  · have h1 : b.toNat / 100 < 10 := by omega
+    have h2 : b.toNat / 10 % 10 < 10 := by omega
+    have h3 : b.toNat % 10 < 10 := by omega
+    simp [hexDigit, h1, h2, h3]
+  · split
+    · have h1 : b.toNat / 10 < 10 := by omega
+      have h3 : b.toNat % 10 < 10 := by omega
+      simp [hexDigit, h1, h3]
+    · have h1 : b.toNat < 10 := by omega
+      simp [hexDigit, h1]
+
+theorem go6_dot (rest acc : List UInt8) (colon : Option Nat) (k v : Nat) (tok : List UInt8) :
+    go6 (46 :: rest) ⟨acc, colon, k, v, tok⟩ =
+      if acc.length + 4 ≤ 16 then
+        match pton4 tok with
+        | some x => finish6 (acc ++ x.toList) colon
+        | none => none
+      else none := by
+  have h : (46 : UInt8) ≠ 58 := by decide
+  simp only [go6, hexVal_dot, h, if_false, true_and]
+  rfl
+
+/-- the first octet of a dotted quad is read as hex digits, the '.' then hands the token to `inet_pton4` -/
+theorem go6_decByte_dot (b : UInt8) (rest acc : List UInt8) (colon : Option Nat) (tok : List UInt8) :
+    go6 (decByte b ++ 46 :: rest) ⟨acc, colon, 0, 0, tok⟩ =
+      if acc.length + 4 ≤ 16 then
+        match pton4 tok with
+        | some x => finish6 (acc ++ x.toList) colon
+        | none => none
+      else none := by
+  have hb := u8_lt b
+  rw [decByte_eq]
+  split
+  · rw [List.cons_append, List.cons_append, List.cons_append, List.nil_append,
+      go6_digit _ (by omega) _ _ (by simp) (by simp; omega), go6_digit _ (by omega) _ _ (by simp) (by simp; omega),
+      go6_digit _ (by omega) _ _ (by simp) (by simp; omega), go6_dot]
+  · split
+    · rw [List.cons_append, List.cons_append, List.nil_append,
+        go6_digit _ (by omega) _ _ (by simp) (by simp; omega), go6_digit _ (by omega) _ _ (by simp) (by simp; omega), go6_dot]
+    · rw [List.cons_append, List.nil_append, go6_digit _ (by omega) _ _ (by simp) (by simp; omega), go6_dot]
+
+theorem ntop4_shape (t : Vector UInt8 4) : ∃ rest, ntop4 t = decByte t[0] ++ 46 :: rest := ⟨_, rfl⟩
+
+theorem ntop4_ne_nil (t : Vector UInt8 4) : ntop4 t ≠ [] := by
+  obtain ⟨r, h⟩ := ntop4_shape t
+  rw [h]; simp
+
+theorem go6_ntop4 (t : Vector UInt8 4) (acc : List UInt8) (colon : Option Nat) (ha : acc.length + 4 ≤ 16) :
+    go6 (ntop4 t) ⟨acc, colon, 0, 0, ntop4 t⟩ = finish6 (acc ++ t.toList) colon := by
+  obtain ⟨r, h⟩ := ntop4_shape t
+  have := go6_decByte_dot t[0] r acc colon (ntop4 t)
+  rw [← h] at this
+  rw [this, pton4_ntop4]
+  simp [ha]
+
+/-- `::a.b.c.d` -/
+theorem pton6_tail6 (t : Vector UInt8 4) :
+    pton6 (58 :: 58 :: ntop4 t) = vec16 (List.replicate 12 0 ++ t.toList) := by
+  rw [pton6_coloncolon, go6_ntop4 t [] (some 0) (by simp)]
+  simp [finish6]
+
+/-- `::ffff:a.b.c.d` -/
+theorem pton6_tail5 (t : Vector UInt8 4) :
+    pton6 (58 :: 58 :: (hexG 0xffff ++ 58 :: ntop4 t)) = vec16 (List.replicate 10 0 ++ valBytes 0xffff ++ t.toList) := by
+  rw [pton6_coloncolon, go6_group_colon 0xffff (by decide) _ (ntop4_ne_nil t) [] (some 0) _ (by simp),
+    go6_ntop4 t _ (some 0) (by simp [valBytes])]
+  simp [finish6, valBytes]
+
+/-! ### words and bytes -/
+
+theorem valBytes_word (x y : UInt8) : valBytes (x.toNat * 256 + y.toNat) = [x, y] := by
+  have hx := u8_lt x
+  have hy := u8_lt y
+  have e1 : (x.toNat * 256 + y.toNat) / 256 = x.toNat := by omega
+  have e2 : (x.toNat * 256 + y.toNat) % 256 = y.toNat := by omega
+  simp [valBytes, e1, e2]
+
+theorem gbytes_words6 (a : Vector UInt8 16) : gbytes (words6 a) = a.toList := by
+  simp [words6, gbytes, valBytes_word, toList16 a]
+
+theorem words6_lt (a : Vector UInt8 16) : ∀ w ∈ words6 a, w < 65536 := by
+  intro w hw
+  simp only [words6, List.mem_cons, List.mem_nil_iff, or_false] at hw
+  rcases hw with h | h | h | h | h | h | h | h <;>
+    (subst h
+     have h1 := u8_lt (a[0]); have h2 := u8_lt (a[1]); have h3 := u8_lt (a[2]); have h4 := u8_lt (a[3])
+     have h5 := u8_lt (a[4]); have h6 := u8_lt (a[5]); have h7 := u8_lt (a[6]); have h8 := u8_lt (a[7])
+     have h9 := u8_lt (a[8]); have h10 := u8_lt (a[9]); have h11 := u8_lt (a[10]); have h12 := u8_lt (a[11])
+     have h13 := u8_lt (a[12]); have h14 := u8_lt (a[13]); have h15 := u8_lt (a[14]); have h16 := u8_lt (a[15])
+     omega)
+
+theorem vec16_toList (a : Vector UInt8 16) : vec16 a.toList = some a := by
+  simp [vec16, Vector.toList]
+
+theorem gbytes_replicate_zero (l : Nat) : gbytes (List.replicate l 0) = List.replicate (2 * l) 0 := by
+  induction l with
+  | zero => rfl
+  | succ n ih =>
+    rw [List.replicate_succ, gbytes_cons, ih, show 2 * (n + 1) = 2 * n + 1 + 1 by omega, List.replicate_succ, List.replicate_succ]
+    simp [valBytes]
+
+/-- a run of zero groups inside a list of groups, as bytes -/
+theorem gbytes_zero_run (ws : List Nat) (b l : Nat) (hbl : b + l ≤ ws.length)
+    (hz : ∀ i, b ≤ i → i < b + l → ws.getD i 1 = 0) :
+    gbytes (ws.take b) ++ List.replicate (2 * l) 0 ++ gbytes (ws.drop (b + l)) = gbytes ws := by
+  have hmid : (ws.drop b).take l = List.replicate l 0 := by
+    apply List.ext_getElem
+    · simp; omega
+    · intro i h1 h2
+      simp at h1
+      have := hz (b + i) (by omega) (by omega)
+      simp [List.getD_eq_getElem?_getD, List.getElem?_eq_getElem (show b + i < ws.length by omega)] at this
+      simp [this]
+  have hsplit : ws = ws.take b ++ ((ws.drop b).take l ++ ws.drop (b + l)) := by
+    rw [← List.drop_drop, List.take_append_drop, List.take_append_drop]
+  conv => rhs; rw [hsplit]
+  rw [gbytes_append, gbytes_append, hmid, gbytes_replicate_zero, List.append_assoc]
+
+theorem validRuns_bounds : ∀ p ∈ validRuns, 2 ≤ p.2 ∧ p.1 + p.2 ≤ 8 := by decide
+
+theorem zero_of_flag (ws : List Nat) (i : Nat) (h : (ws.map (· == 0)).getD i false = true) : ws.getD i 1 = 0 := by
+  simp only [List.getD_eq_getElem?_getD, List.getElem?_map] at h ⊢
+  cases hi : ws[i]? with
+  | none => simp [hi] at h
+  | some x => simpa [hi] using h
+
 end PV.SockAddr
